@@ -38,6 +38,8 @@ func main() {
 		suiteCodec(*seed, *n, *work)
 	case "exec":
 		suiteExec(*work)
+	case "hist":
+		suiteHist(*seed, *n, *work, *extra)
 	default:
 		_ = extra
 		fmt.Fprintln(os.Stderr, "unknown suite", suite)
